@@ -70,3 +70,29 @@ def self_attr_writes(fi, attr):
 
 def loc(fi, node):
     return f"{fi.mod.rel}:{getattr(node, 'lineno', fi.node.lineno)}"
+
+
+def class_const(repo, cname, name):
+    """value of a class-level constant, also when the class body builds it with statements
+    (loops, D.update(..), conditional assignments): the class body is interpreted in order;
+    plain literal assignments fall back to constant folding"""
+    from .absint import Interp, PyRaise, Undecided
+    from .core import AnalysisError
+    from .src import Unfoldable
+    c = repo.cls(cname)
+    simple = all(isinstance(st, (ast.FunctionDef, ast.AsyncFunctionDef, ast.ClassDef, ast.Assign, ast.AnnAssign, ast.Pass))
+                 or (isinstance(st, ast.Expr) and isinstance(st.value, ast.Constant)) for st in c.node.body)
+    n_assign = sum(1 for st in c.node.body if isinstance(st, (ast.Assign, ast.AnnAssign))
+                   for t in (st.targets if isinstance(st, ast.Assign) else [st.target]) if isinstance(t, ast.Name) and t.id == name)
+    if simple and n_assign == 1:
+        try:
+            return repo.fold(c.consts[name], c.mod, c)
+        except Unfoldable:
+            pass
+    try:
+        env = Interp(repo).class_env(c)
+    except (PyRaise, Undecided) as e:
+        raise AnalysisError(f"class body of {cname} cannot be evaluated: {e}")
+    if name not in env:
+        raise AnalysisError(f"{cname}.{name} is not defined by the class body")
+    return env[name]
